@@ -211,6 +211,31 @@ def csv_op(params, data, ctx=None):
     return f"csv {kind} {ty} {lp} {nout} {ord(sep)} {ord('#')} {maxb} {m} {hx(data)}"
 
 
+def gen_csv1(r, ctx=None):
+    """scalar readers: whitespace / comment separated values"""
+    ty = r.choice(["int", "uint", "f64"])
+    n = r.choice([0, 1, 2, 3, 5, 9])
+    toks = []
+    for _ in range(n):
+        if ty == "f64": toks.append(num_token(r))
+        elif ty == "int": toks.append(r.choice([str(r.range(-50, 50)), "+7", "-0", "2147483647", "-2147483648", "2147483648", "007"]))
+        else: toks.append(r.choice([str(r.range(0, 99)), "4294967295", "4294967296", "-1", "00"]))
+        if r.chance(1, 12): toks.append("# note " + str(r.below(9)) + "\n")
+    out = ""
+    for t in toks:
+        out += t + r.choice([" ", " ", "\n", "\t", "\r\n", "  "])
+    if r.chance(1, 3): out = out.rstrip()
+    maxb = r.choice([1, 2, 3, 256])
+    if ctx: ctx.hist("csv1_type", ty); ctx.hist("csv1_values", n)
+    return ty, maxb, out.encode()
+
+
+def csv1_op(ty, maxb, data, ctx=None):
+    m = mode_of(data)
+    if ctx: ctx.hist("mode", m)
+    return f"csv1 {ty} {ord('#')} {maxb} {m} {hx(data)}"
+
+
 def gen_rt(r, ctx=None):
     """exporter, then importer: every separator, label position, batch size"""
     n = r.choice([0, 1, 2, 3, 5, 8, 13]); dim = r.choice([1, 2, 3, 6]); seed = r.below(40)
@@ -314,6 +339,12 @@ def run(ctx):
     for _ in range(nmut):
         prm = csv_params(r)
         cases.append([csv_op(prm, mutate(r, gen_csv_file(r, prm[0], prm[2], prm[3], prm[4]), ctx), ctx)])
+    for _ in range(nvalid // 5):
+        ty, maxb, data = gen_csv1(r, ctx)
+        cases.append([csv1_op(ty, maxb, data, ctx)])
+    for _ in range(nmut // 5):
+        ty, maxb, data = gen_csv1(r)
+        cases.append([csv1_op(ty, maxb, mutate(r, data, ctx), ctx)])
     nrt = 300 if ctx.quick else 5000
     cases += [[gen_rt(r, ctx)] for _ in range(nrt)]
     ctx.cov["evaluations"] = len(cases)
